@@ -39,7 +39,11 @@ RULE = ('random call graphs: 1-5 levels, 1-2 callables per level drawn from func
         'from Python; every 4th case interprets ANOTHER model (same loader, same process) in the middle of its invocations; '
         'every 10th case invokes a function that fails half way between the others and repeats them after it; every 50th '
         'case (i % 50 == 37) names a constant / enumeration like a function in another letter case (must work); '
-        'parameters whose names differ in letter case only')
+        'parameters whose names differ in letter case only; every 2nd case adds callables of different kinds / external '
+        'entities / classes that share ONE name and have different bodies (function, EE1::, EE2::, A::, B::), invoked in '
+        'shuffled order, each twice, and from one OAL caller; every other case adds a callable with a NON-VOID return type '
+        'whose executed path has no value return (falls off / bare return / no return statement), invoked with both '
+        'parameter values: it has to deliver nothing (None)')
 EXHAUSTIVE = {'quick': False, 'thorough': False}
 ASSUMPTIONS = ['bodies are type-correct, terminating and error-free under the reference semantics (decided by Spec)',
                'callables do not delete instances; callables used in where clauses and derived attributes do not change the population',
@@ -526,6 +530,73 @@ def add_boom(rng, callables, entries):
     return out
 
 
+def add_samename(rng, callables, entries, pop):
+    """callables of DIFFERENT kinds / external entities / classes that share ONE name and have different bodies, all
+    invoked on one component in varying order, each more than once, and from one OAL caller: every one of them has to
+    run its own body (nothing may be remembered under the bare name)"""
+    r = rng
+    nm = r.choice(['read', 'get', 'calc', 'Read'])
+    vals = r.sample([1, 2, 3, 4, 5, 6, 7, 8, 9], 5)
+    lvl = max([x['level'] for x in callables] or [0])
+
+    def mk(kind, ns, v, ret='integer'):
+        body = [['assign', 'k', ['int', v]], ['return', ['bin', '+', ['var', 'k'], ['int', 0]]]]
+        h = _sig(kind, nm, ns, [], ret, True)
+        h.update(recursive=False, level=lvl, body=body, text=G.render(body), cost=1)
+        callables.append(h)
+        return h
+    mk('function', None, vals[0])
+    mk('bridge', 'EE1', vals[1])
+    mk('bridge', 'EE2', vals[2])
+    mk('classop', 'A', vals[3])
+    second = r.choice(['classop', 'instop']) if pop['inst']['B'] else 'classop'
+    mk(second, 'B', vals[4])
+    calls = [['fn', nm, {}], ['brg', 'EE1', nm, {}], ['brg', 'EE2', nm, {}], ['cop', 'A', nm, {}],
+             (['cop', 'B', nm, {}] if second == 'classop' else ['iop', 'B', r.randrange(len(pop['inst']['B'])), nm, {}])]
+    body = [['return', ['bin', '+', ['bin', '+', ['bin', '*', ['callf', nm, []], ['int', 1000]],
+                                     ['bin', '*', ['calln', 'EE2', nm, []], ['int', 100]]],
+                        ['bin', '+', ['bin', '*', ['calln', 'A', nm, []], ['int', 10]], ['calln', 'EE1', nm, []]]]]]
+    caller = _sig('function', 'samecall', None, [], 'integer', True)
+    caller.update(recursive=False, level=lvl + 1, body=body, text=G.render(body), cost=5)
+    callables.append(caller)
+    order = [list(c) for c in calls] + [list(c) for c in calls] + [['fn', 'samecall', {}]]
+    r.shuffle(order)
+    k = r.randrange(len(entries) + 1)
+    return entries[:k] + order[:6] + entries[k:] + order[6:]
+
+
+def add_novalue(rng, callables, entries, pop):
+    """a callable with a NON-VOID return type whose executed path has no value return (falls off the end, or a bare
+    `return;`): it delivers nothing (None when invoked from Python) - not the default of the declared type"""
+    r = rng
+    kind = r.choice(['function', 'bridge', 'classop', 'instop'])
+    if kind == 'instop' and not pop['inst']['A']:
+        kind = 'function'
+    ret = r.choice(['integer', 'integer', 'string', 'boolean'])
+    lit = {'integer': ['int', r.choice([0, 5, -2])], 'string': ['str', r.choice(['', 'ab'])], 'boolean': ['bool', r.random() < 0.5]}[ret]
+    shape = r.choice(['falls-off', 'bare-return', 'no-return'])
+    body = [['assign', 'k', ['int', 3]]]
+    if shape != 'no-return':
+        body.append(['if', ['param', 't'], [['return', lit]], [], None])
+    if shape == 'bare-return':
+        body.append(['return', None])
+    lvl = max([x['level'] for x in callables] or [0])
+    h = _sig(kind, 'nv', {'function': None, 'bridge': 'EE1', 'classop': 'A', 'instop': 'A'}[kind], [('t', 'boolean')], ret, True)
+    h.update(recursive=False, level=lvl, body=body, text=G.render(body), cost=1, novalue=shape)
+    callables.append(h)
+
+    def call(t):
+        if kind == 'function':
+            return ['fn', 'nv', {'t': t}]
+        if kind == 'bridge':
+            return ['brg', 'EE1', 'nv', {'t': t}]
+        if kind == 'classop':
+            return ['cop', 'A', 'nv', {'t': t}]
+        return ['iop', 'A', r.randrange(len(pop['inst']['A'])), 'nv', {'t': t}]
+    k = r.randrange(len(entries) + 1)
+    return entries[:k] + [call(False), call(True), call(False)] + entries[k:]
+
+
 def blank_failed(case, canon):
     """the value of an invocation that fails half way is not part of the comparison"""
     if canon and canon[0] == 'ok':
@@ -797,6 +868,10 @@ def generate(ctx):
                 callables.append(cl)
                 entries = [['fn', 'clash', {}]]
                 family = 'clash'
+        if i % 2 == 0:
+            entries = add_samename(r.fork('samename'), callables, entries, pop)
+        else:
+            entries = add_novalue(r.fork('novalue'), callables, entries, pop)
         if i % 10 == 4 and entries:
             entries = add_boom(r.fork('boom'), callables, entries)
             family = 'boom'
@@ -1010,6 +1085,11 @@ def _judge(case, obs, calls, raised):
              'call_depth_%d' % min(calls['max'], 8): 1, 'callables': len(case['callables']),
              'levels_%d' % (1 + max(c['level'] for c in case['callables'])): 1}
     stats['family_' + case.get('family', 'graph')] = 1
+    if any(c['name'] == 'samecall' for c in case['callables']):
+        stats['same_named_callables_of_different_kinds'] = 1
+    for c in case['callables']:
+        if c.get('novalue'):
+            stats['non_void_callable_without_value_return_' + c['novalue']] = 1
     if case.get('decoy') is not None:
         stats['another_model_interpreted_in_between'] = 1
     stats['invocations_repeated_after_a_change'] = sum(1 for k, e in enumerate(case['entries']) if e[0] in ('fn', 'brg', 'cop', 'iop') and any(x == e for x in case['entries'][:k]))
